@@ -607,6 +607,13 @@ func (eng *Engine) genOverlay(p *packages.Package, cf *ContractFile, fset *token
 						}
 						return true
 					})
+					{
+						var nodes []ast.Node
+						for _, r := range rets {
+							nodes = append(nodes, r)
+						}
+						a.Ordinal = g.eng.reanchor(p, fs, fmt.Sprintf("%s@return%d", a.Clause.Label, a.Ordinal), a.Ordinal, nodes, fset)
+					}
 					if a.Ordinal < 1 || a.Ordinal > len(rets) {
 						g.eng.drift = append(g.eng.drift, fmt.Sprintf("%s:%d: %s has %d return statements, contract names return %d (clause %s dropped)", cf.Path, a.Clause.Line, fs.Name, len(rets), a.Ordinal, a.Clause.Label))
 						a.Dead = true
@@ -622,6 +629,15 @@ func (eng *Engine) genOverlay(p *packages.Package, cf *ContractFile, fset *token
 					continue
 				}
 				calls := collectCalls(fi.decl, a.Callee)
+				if !strings.Contains(a.Clause.Go, "argof_") && !strings.Contains(a.Clause.Go, "resultof") && a.SinceCallee == "" {
+					// (clauses that name calls by ordinal inside their expression keep their ordinal: moving the anchor
+					// alone would separate the two)
+					var nodes []ast.Node
+					for _, c := range calls {
+						nodes = append(nodes, c)
+					}
+					a.Ordinal = g.eng.reanchor(p, fs, fmt.Sprintf("%s@%s%d", a.Clause.Label, a.Callee, a.Ordinal), a.Ordinal, nodes, fset)
+				}
 				if a.Ordinal < 1 || a.Ordinal > len(calls) {
 					g.eng.drift = append(g.eng.drift, fmt.Sprintf("%s:%d: %s has %d calls of %s, contract names call %d (clause %s dropped)", cf.Path, a.Clause.Line, fs.Name, len(calls), a.Callee, a.Ordinal, a.Clause.Label))
 					a.Dead = true
@@ -1033,6 +1049,9 @@ func (g *overlayGen) shadowedAt(fi *funcInfo, name string, pos token.Pos) bool {
 type FuncNames struct {
 	Params []string    `json:"params"`
 	Locals [][2]string `json:"locals"`
+	// the text of the statement a return / call anchored clause sat on at baseline, by clause label: when a later tree
+	// has other statements at that ordinal but exactly one with this text, the clause moves with its statement
+	Anchors map[string]string `json:"anchors,omitempty"`
 }
 
 var namesPath string // <root>/contracts/names.json, set by the check command
@@ -1053,6 +1072,47 @@ func (eng *Engine) collectNames(p *packages.Package, fi *funcInfo) FuncNames {
 		return true
 	})
 	return fn
+}
+
+// reanchor: the ordinal of the statement a clause is anchored on. The text of that statement is recorded (for the
+// baseline file); if the baseline recorded another text for this clause than the statement now at the ordinal has, and
+// exactly one candidate statement has the recorded text, the clause follows it there.
+func (eng *Engine) reanchor(p *packages.Package, fs *FuncSpec, label string, ordinal int, nodes []ast.Node, fset *token.FileSet) int {
+	key := p.PkgPath + "." + fs.Name
+	text := func(n ast.Node) string {
+		var sb strings.Builder
+		printer.Fprint(&sb, fset, n)
+		return strings.Join(strings.Fields(sb.String()), " ")
+	}
+	if base, ok := eng.baseNames[key]; ok && base.Anchors != nil {
+		if want, ok := base.Anchors[label]; ok && want != "" {
+			if ordinal < 1 || ordinal > len(nodes) || text(nodes[ordinal-1]) != want {
+				found := 0
+				for i, n := range nodes {
+					if text(n) == want {
+						if found != 0 {
+							found = -1
+							break
+						}
+						found = i + 1
+					}
+				}
+				if found > 0 {
+					eng.renameNotes = append(eng.renameNotes, fmt.Sprintf("%s: clause %s follows its statement (%s) from position %d to %d", fs.Name, label, want, ordinal, found))
+					ordinal = found
+				}
+			}
+		}
+	}
+	if ordinal >= 1 && ordinal <= len(nodes) {
+		cur := eng.curNames[key]
+		if cur.Anchors == nil {
+			cur.Anchors = map[string]string{}
+		}
+		cur.Anchors[label] = text(nodes[ordinal-1])
+		eng.curNames[key] = cur
+	}
+	return ordinal
 }
 
 func (eng *Engine) followRenames(p *packages.Package, fs *FuncSpec, fi *funcInfo) {
